@@ -1,7 +1,7 @@
 (* C11 — flow-control limits are never exceeded and violations are detected.
    Only the property theorems live here; each is closed by a lemma of Proofs/Flow.v or
    Proofs/StreamCtl.v and its assumptions are printed for the audit.  `as_is` is the code as it
-   stands, `fixed` the code after the `fix:` commits for F12, F13, F26, F27 and F33. *)
+   stands, `fixed` the code after the `fix:` commits for F12, F13, F26, F27, F33 and F34. *)
 From Coq Require Import List NArith ZArith Bool Lia.
 From GQ Require Import Model.StreamCtl Proofs.Flow Proofs.StreamCtl Proofs.StreamLift.
 Import ListNotations.
@@ -79,29 +79,52 @@ Theorem c11_window_loss : forall s a b f,
   Winv s -> Winv (snd_may_loss s a b f) /\ sn_window (snd_may_loss s a b f) = sn_window s.
 Proof. exact p_c11_window_loss. Qed.
 
-(* ---- connection limit: for every history of credits, posts, drops and MAX_DATA updates
-   (no 0-RTT rejection): charged = posted + outstanding <= max_data, so `max_data - sent_data`
-   never underflows; once every credit is dropped the charge is exactly the fresh bytes posted *)
+(* ---- connection limit (repaired controller, F34): for EVERY history of credits, posts, drops,
+   MAX_DATA updates and handshakes - 0-RTT rejections included, no guard - the accounting identity
+   `charged + slack = fresh bytes posted since the last rejection + outstanding` holds and
+   charged <= max_data, so `max_data - sent_data` never underflows.  [ss_slack] is the unused budget
+   Credits taken before the last rejection still held at that moment (defined in s_step); it is 0
+   when no Credit is alive across a rejection (c11_conn_limit_quiet: then fresh bytes since the
+   rejection <= the most recent MAX_DATA, each byte charged once; once every credit is dropped the
+   charge is exactly the fresh bytes posted) *)
 Theorem c11_conn_limit : forall ops m st,
-  Forall sop_ok ops -> s_exec (s_init m) ops = Some st ->
-  Sinv st /\ ss_posted st <= max_data (ss_c st)
+  s_exec true (s_init m) ops = Some st ->
+  Sinv st /\ ss_posted st <= max_data (ss_c st) + ss_slack st
   /\ sc_available (ss_c st) = Some (max_data (ss_c st) - sent_data (ss_c st))
-  /\ (outstanding (ss_cr st) = 0 -> sent_data (ss_c st) = ss_posted st).
+  /\ (ss_slack st = 0 -> outstanding (ss_cr st) = 0 -> sent_data (ss_c st) = ss_posted st).
 Proof. exact p_c11_conn_limit. Qed.
 
+Theorem c11_conn_limit_quiet : forall ops m st,
+  s_quiet true (s_init m) ops -> s_exec true (s_init m) ops = Some st ->
+  ss_slack st = 0 /\ sent_data (ss_c st) = ss_posted st + outstanding (ss_cr st)
+  /\ ss_posted st <= max_data (ss_c st).
+Proof. exact p_c11_conn_limit_quiet. Qed.
+
+(* the only arithmetic panics left are the callers': posting beyond a credit, or returning a
+   Credit whose unused budget was taken before a rejection *)
 Theorem c11_conn_no_underflow : forall ops m,
-  Forall sop_ok ops -> s_exec (s_init m) ops = None ->
-  exists pre i n rest st av, ops = pre ++ SPost i n :: rest /\ s_exec (s_init m) pre = Some st
-                             /\ nth_error (ss_cr st) i = Some (Some av) /\ av < n.
+  s_exec true (s_init m) ops = None ->
+  exists pre o rest st i av,
+    ops = pre ++ o :: rest /\ s_exec true (s_init m) pre = Some st
+    /\ nth_error (ss_cr st) i = Some (Some av)
+    /\ ((exists n, o = SPost i n /\ av < n)
+        \/ (o = SDrop i /\ sent_data (ss_c st) < av /\ 0 < ss_slack st)).
 Proof. exact p_c11_conn_no_underflow. Qed.
 
-Theorem c11_retransmission_free : forall st i st',
-  s_step st (SPost i 0) = Some st' -> ss_posted st' = ss_posted st /\ ss_c st' = ss_c st.
+Theorem c11_retransmission_free : forall fx st i st',
+  s_step fx st (SPost i 0) = Some st' -> ss_posted st' = ss_posted st /\ ss_c st' = ss_c st.
 Proof. exact p_c11_retransmission_free. Qed.
 
-Theorem c11_send_limit_monotone : forall st o st',
-  sop_ok o -> s_step st o = Some st' -> max_data (ss_c st) <= max_data (ss_c st').
+(* the limit never goes down except at a rejection, where it becomes the server's new value and
+   the charge restarts from 0 (as it was: the charge was kept) *)
+Theorem c11_send_limit_monotone : forall fx st o st',
+  sop_ok o -> s_step fx st o = Some st' -> max_data (ss_c st) <= max_data (ss_c st').
 Proof. exact p_c11_send_limit_monotone. Qed.
+
+Theorem c11_revise_rejected : forall s v,
+  max_data (sc_revise s true v) = v /\ sent_data (sc_revise s true v) = 0
+  /\ sent_data (sc_revise_asis s true v) = sent_data s.
+Proof. exact p_c11_revise_rejected. Qed.
 
 
 (* ---- the composed model: one packet-loading step, and every whole-DataStreams op list *)
@@ -126,7 +149,9 @@ Theorem c11_load_once_charge : forall v s cap,
 Proof. exact p_c11_load_once_charge. Qed.
 
 (* the invariant (every sender within its window, sent_data <= max_data) holds after every
-   whole-DataStreams op list whose handshake is not a 0-RTT rejection (op_ok) *)
+   whole-DataStreams op list - for the repaired variant a 0-RTT rejection included; all_ok only
+   asks that a handshake keeps the window of a stream whose FIN is out above what it covers, and,
+   for a variant without the repair of F34, that the handshake is not a rejection *)
 Theorem c11_ds_invariant : forall v ops s,
   Dinv s -> all_ok v s ops -> Dinv (ds_exec v s ops).
 Proof. exact p_c11_ds_invariant. Qed.
@@ -145,10 +170,19 @@ Theorem c11_limits_ds : forall v ops s0 cap fuel,
      /\ sent_data (d_fs s') <= max_data (d_fs s') /\ max_data (d_fs s') = max_data (d_fs s).
 Proof. exact p_c11_limits_ds. Qed.
 
-(* no operation other than LOAD charges the connection-level budget *)
+(* no operation other than LOAD charges the connection-level budget; the only other operation that
+   moves it is a rejected handshake (repaired code), which restarts it: charge 0, limit = the
+   server's initial_max_data *)
 Theorem c11_only_load_charges : forall v s o,
-  (forall cap, o <> OLoad cap) -> sent_data (d_fs (fst (ds_step v s o))) = sent_data (d_fs s).
+  (forall cap, o <> OLoad cap) -> (fix34 v = true -> o <> OHandshake true) ->
+  sent_data (d_fs (fst (ds_step v s o))) = sent_data (d_fs s).
 Proof. exact ds_step_sent. Qed.
+
+Theorem c11_rejected_restarts : forall v s,
+  fix34 v = true -> d_closed s = false -> d_hs s = false ->
+  let s' := fst (ds_step v s (OHandshake true)) in
+  sent_data (d_fs s') = 0 /\ max_data (d_fs s') = p_md (d_rem s).
+Proof. exact p_c11_rejected_restarts. Qed.
 
 
 (* ---- F33 repaired: a locally opened stream sends only while its index is below the peer's
@@ -173,24 +207,38 @@ Example c11_f33_replay :
   /\ nth 7 (run_streams_fixed cfg ops) [] = [1; 0; 1147; 1; 1; 0; 0; 50; 0]%Z.
 Proof. vm_compute. split; reflexivity. Qed.
 
-(* ---- F34 (open): c11_conn_limit needs its guard.  After a 0-RTT rejection sent_data is kept
-   while max_data restarts from the new value: `max_data - sent_data` underflows (debug panic,
-   release wrap = unlimited credit) *)
-Theorem c11_conn_limit_rejected_refuted :
-  exists ops m, ~ Forall sop_ok ops /\ s_exec (s_init m) ops = None
-                /\ forall i n, ~ In (SPost i n) ops \/ n <= 800.
-Proof.
-  exists [SCredit 800; SPost 0 800; SDrop 0; SRevise true 500; SCredit 10], 1000.
-  split; [intro F; do 3 (apply Forall_inv_tail in F); apply Forall_inv in F; exact F|].
-  split; [vm_compute; reflexivity|].
-  intros i n. destruct (N.leb_spec n 800); [right; assumption|left].
-  intros [E|[E|[E|[E|[E|[]]]]]]; inversion E; subst; lia.
-Qed.
+(* ---- F34 (repaired; regression statement).  As it was, revise_max_data kept sent_data across a
+   0-RTT rejection while max_data restarted from the new value: with every credit returned before
+   the rejection and nobody posting beyond a credit, sent_data > max_data afterwards and the next
+   credit() underflows `max_data - sent_data` (debug panic, release wrap = unlimited credit); the
+   repaired controller answers the same history *)
+Theorem c11_conn_limit_asis_refuted :
+  exists ops m st,
+    s_exec false (s_init m) ops = Some st /\ ss_slack st = 0 /\ outstanding (ss_cr st) = 0
+    /\ ~ sent_data (ss_c st) <= max_data (ss_c st)
+    /\ s_step false st (SCredit 10) = None
+    /\ exists st', s_exec true (s_init m) (ops ++ [SCredit 10]) = Some st'.
+Proof. exact p_c11_conn_limit_asis_refuted. Qed.
 
+(* on the public FlowController: limit 1000, 800 posted, rejection with 500: as it was the next
+   credit() panics (-3); repaired, it grants 10 of the fresh 500 *)
 Example c11_f34_replay :
-  run_flow [1000; 0]%Z [(0, [800%Z]); (1, [0; 800]%Z); (2, [0%Z]); (5, [1; 500]%Z); (0, [10%Z])]
-  = [[1; 800; 0; 0]; [1; 0]; [1]; [1]; [-3]]%Z.
-Proof. vm_compute. reflexivity. Qed.
+  let ops := [(0, [800%Z]); (1, [0; 800]%Z); (2, [0%Z]); (5, [1; 500]%Z); (0, [10%Z])] in
+  run_flow [1000; 0]%Z ops = [[1; 800; 0; 0]; [1; 0]; [1]; [1]; [-3]]%Z
+  /\ run_flow_fixed [1000; 0]%Z ops = [[1; 800; 0; 0]; [1; 0]; [1]; [1]; [1; 10; 0; 0]]%Z.
+Proof. vm_compute. split; reflexivity. Qed.
+
+(* on the whole model (corpus/C11/streams/f34.case): 0-RTT client sends 800 bytes under a
+   remembered MAX_DATA of 1000, the handshake is rejected with MAX_DATA 500: as it was the next
+   LOAD dies in credit() (the model's outcome is the inert `nothing loaded`, the Rust panics);
+   repaired, it re-sends the first 500 bytes as fresh (with DATA_BLOCKED 500) and stops there *)
+Example c11_f34_replay_streams :
+  let cfg := [0; 1; 0; 3; 3; 100000; 100; 100; 100; 5; 5; 500; 900; 800; 700; 5; 5; 1000; 900; 800; 700]%Z in
+  let ops := [(1, [0%Z]); (2, [0; 800]%Z); (6, [1200%Z]); (0, [1%Z]); (6, [1200%Z]); (6, [1200%Z])] in
+  nth 4 (run_streams_with (mkvar true true true true true false) cfg ops) [] = [0; 0; 1200; 0]%Z
+  /\ nth 4 (run_streams_fixed cfg ops) [] = [1; 0; 696; 2; 1; 0; 0; 500; 0; 8; 500; 0; 0; 0]%Z
+  /\ nth 5 (run_streams_fixed cfg ops) [] = [0; 0; 1200; 0]%Z.
+Proof. vm_compute. repeat split. Qed.
 
 (* ---- receive side: detection *)
 Theorem c11_recv_detects : forall r off len fin final,
@@ -254,14 +302,21 @@ Theorem c11_recv_no_panic : forall init amounts,
   rmax_data s <= init + rcvd_data s + 2 * (init / 2).
 Proof. exact p_c11_recv_no_panic. Qed.
 
-(* non-vacuity: a history that reaches the limit, returns unused credit, is raised, and posts a
-   retransmission; and a receive history that advertises twice and then overflows *)
+(* non-vacuity: a history that reaches the limit, returns unused credit, is raised, posts a
+   retransmission, is then rejected with a smaller limit and fills the new limit exactly; a history
+   in which a Credit straddles the rejection (the slack term is needed: 50 fresh bytes since the
+   rejection against a limit of 30); and a receive history that advertises twice and then overflows *)
 Example c11_nonvacuous :
-  (exists st, s_exec (s_init 100) [SCredit 1200; SPost 0 60; SDrop 0; SCredit 1200; SPost 1 0; SPost 1 40; SDrop 1;
-                                   SCredit 5; SDrop 2; SIncrease 250; SCredit 1200; SPost 3 100; SDrop 3] = Some st
-              /\ ss_posted st = 200 /\ sent_data (ss_c st) = 200 /\ max_data (ss_c st) = 250)
+  (exists st, s_exec true (s_init 100)
+                [SCredit 1200; SPost 0 60; SDrop 0; SCredit 1200; SPost 1 0; SPost 1 40; SDrop 1;
+                 SCredit 5; SDrop 2; SIncrease 250; SCredit 1200; SPost 3 100; SDrop 3;
+                 SRevise true 120; SCredit 1200; SPost 4 120; SDrop 4] = Some st
+              /\ ss_posted st = 120 /\ sent_data (ss_c st) = 120 /\ max_data (ss_c st) = 120 /\ ss_slack st = 0)
+  /\ (exists st, s_exec true (s_init 100)
+                   [SCredit 50; SRevise true 30; SPost 0 20; SCredit 100; SPost 1 30; SDrop 0; SDrop 1] = Some st
+                 /\ ss_posted st = 50 /\ sent_data (ss_c st) = 0 /\ max_data (ss_c st) = 30 /\ ss_slack st = 50)
   /\ snd (r_exec (rctl_new 100) [20; 30; 40; 200]) = [RcvOk None; RcvOk (Some 150); RcvOk None; RcvFlowControl].
-Proof. vm_compute. split; [eexists; repeat split|reflexivity]. Qed.
+Proof. vm_compute. split; [eexists; repeat split|split; [eexists; repeat split|reflexivity]]. Qed.
 
 Print Assumptions c11_window_table_recv.
 Print Assumptions c11_window_table.
@@ -276,6 +331,9 @@ Print Assumptions c11_window_update.
 Print Assumptions c11_window_write.
 Print Assumptions c11_window_loss.
 Print Assumptions c11_conn_limit.
+Print Assumptions c11_conn_limit_quiet.
+Print Assumptions c11_revise_rejected.
+Print Assumptions c11_rejected_restarts.
 Print Assumptions c11_conn_no_underflow.
 Print Assumptions c11_retransmission_free.
 Print Assumptions c11_send_limit_monotone.
@@ -297,5 +355,6 @@ Print Assumptions c11_limits_ds.
 Print Assumptions c11_only_load_charges.
 Print Assumptions c11_load_within_stream_limit.
 Print Assumptions c11_f33_replay.
-Print Assumptions c11_conn_limit_rejected_refuted.
+Print Assumptions c11_conn_limit_asis_refuted.
 Print Assumptions c11_f34_replay.
+Print Assumptions c11_f34_replay_streams.
